@@ -73,6 +73,9 @@ register('C15', 'TLA+ Api spec: chains over every base-term kind in every associ
 register('C08', 'TLA+ Analysis spec: LP(P) assembled by TLC from exact normal forms and solved with the same linprog method as the reference; optyx solve of TLC-enumerated linear problems, both orientations, repeated',
          'The linear problems enumerated by TLC (many spellings, three senses, reflected comparisons, bounded / unbounded / infeasible instances) are solved through optyx with auto and an explicit HiGHS method, twice each, minimise and maximise, and compared in status and optimal objective with the matrix form TLC assembled from the exact normal form, solved by the same SciPy linprog method (identical arrays when extraction is right, so no solver noise).',
          API_NOTE + ' HiGHS (SciPy linprog) is the trusted LP solver on both sides.', 'DESIGN.md 3 (C08)')
+register('C09', 'TLA+ Wiring spec: every problem structure enumerated by TLC with its wiring contract (method, jac/hess/bounds, constraint type, exact x0); arguments captured at the minimize seam and outcome vs direct SciPy on hand-written callables',
+         'TLC enumerates every structure and computes the wiring contract; numbers are instantiated around a manufactured KKT point; the arguments optyx hands to scipy.optimize.minimize are captured and compared with the contract and with hand-written NumPy callables (fun = f in both orientations, jac, hess, constraint fun / jac, bounds, starting point); the same SciPy method is then called directly from the same starting point and, when it converges to the known optimum, optyx must report OPTIMAL at least as close.',
+         'Trusted: TLC; the transcription of the starting-point rule and the method capability sets in Wiring.tla; NumPy / SciPy for the hand-written reference; the manufactured KKT construction. Which method auto selects is not part of the contract beyond "a method that supports the problem".', 'DESIGN.md 3 (C09)')
 
 ALL = ['C%02d' % i for i in range(1, 21)]
 
